@@ -89,7 +89,7 @@ theorem exec_nop {S : SC} (C : Checked S) {x : ExtRec} {l : L} {e : Env}
   exact Post.fall hV G hF hP hb (NMode.fall (succ1 hsucc) herr hp hconf)
 
 theorem exec_push {S : SC} (C : Checked S) {v : JV} {x : ExtRec} {l : L} {e : Env}
-    (hc : codeAt S l.pc = some .push) (hI : Inv S l e) : WP (exec (.push v) x l) (Post S) e := by
+    (hc : codeAt S l.pc = some (.push (isArrJV v))) (hI : Inv S l e) : WP (exec (.push v) x l) (Post S) e := by
   obtain ⟨hb, A, hV, G, hF, hP, hN⟩ := hI.elimN hc rfl
   obtain ⟨herr, a, succs, ha, hst, hsucc, hpc, hp, hconf⟩ := hN.unpack C hc
   simp only [step1, Option.some.injEq] at hst
